@@ -24,6 +24,7 @@ import (
 
 	"github.com/tsuna/gohbase"
 	"github.com/tsuna/gohbase/hrpc"
+	"github.com/tsuna/gohbase/region"
 )
 
 var simAddrs = []string{"rs1:1", "rs2:1", "rs3:1"}
@@ -1251,6 +1252,85 @@ func busyQueueScenarioKind(mode string, direct bool) string {
 	return fmt.Sprintf("c13 wait busy-send-queue %s %s %d %s", api, mode, lat.Microseconds(), res)
 }
 
+// batchBusyQueueScenario (C13): a batch under a context without deadline, whose one call has a
+// context of its own, is handed to a connection whose batching goroutine is stuck inside a Write
+// (the peer does not read): SendBatch waits for the send queue. When the call's own context ends,
+// SendBatch returns with that call marked failed. (Real client, location cache filled by hand with
+// a region whose client is a real region client on a gated connection.)
+func batchBusyQueueScenario(mode string) string {
+	s := newConnScn(NewRNG(5, "c13batchbusy"), 5)
+	if s.broken != "" {
+		return "c13 wait busy-send-queue batchown1 " + mode + " 0 early:" + s.broken
+	}
+	zkDown := newSimCluster() // (never needed: the region is in the cache; answers with errors if asked)
+	atomic.StoreInt32(&zkDown.zkErr, 1<<30)
+	vc := gohbase.VerifNewClient(zkDown, false, nil, gohbase.Logger(discardLogger))
+	reg := region.NewInfo(7, nil, []byte("t"), []byte("t,,7.cccccccccccccccccccccccccccccccc."), nil, nil)
+	reg.SetClient(s.rc)
+	vc.RegionsPut(reg)
+	cl := vc.Client()
+	if vc.GetRegionFromCache([]byte("t"), []byte("first")) == nil {
+		return "c13 wait busy-send-queue batchown1 " + mode + " 0 early:region-not-in-cache"
+	}
+	p1, _ := hrpc.NewPutStr(context.Background(), "t", "first", map[string]map[string][]byte{"f": {"q": []byte("v")}})
+	go cl.SendBatch(context.Background(), []hrpc.Call{p1})
+	settle() // the writer is parked inside conn.Write with the first multi
+	ctx, cancel := context.WithCancel(context.Background())
+	if mode == "deadline" {
+		ctx, cancel = context.WithTimeout(context.Background(), 40*time.Millisecond)
+	}
+	defer cancel()
+	g, _ := hrpc.NewGetStr(ctx, "t", "second")
+	type out struct {
+		res []hrpc.RPCResult
+		ok  bool
+	}
+	done := make(chan out, 1)
+	go func() {
+		r, ok := cl.SendBatch(context.Background(), []hrpc.Call{g})
+		done <- out{r, ok}
+	}()
+	early := false
+	var o out
+	select {
+	case o = <-done:
+		early = true
+	case <-time.After(40 * time.Millisecond):
+	}
+	t0 := time.Now()
+	if mode == "cancel" {
+		cancel()
+	}
+	res, lat := "ctx", time.Duration(0)
+	if early {
+		res = "early:returned"
+	} else {
+		select {
+		case o = <-done:
+			lat = time.Since(t0)
+			if len(o.res) != 1 || o.res[0].Error == nil || o.ok {
+				res = "notfailed"
+			} else {
+				res = classOf(o.res[0].Error)
+			}
+		case <-time.After(2 * time.Second):
+			res, lat = "blocked", 2*time.Second
+		}
+	}
+	cl.Close()
+	go s.rc.Close()
+	for i := 0; i < 20; i++ {
+		for _, p := range s.v.Pending() {
+			if p.kind != "read" {
+				s.v.take(p)
+				p.ch <- gateRes{err: errVClosed}
+			}
+		}
+		time.Sleep(time.Millisecond)
+	}
+	return fmt.Sprintf("c13 wait busy-send-queue batchown1 %s %d %s", mode, lat.Microseconds(), res)
+}
+
 // batchOwnCtx: a batch under a background context; one call's own context ends while its server
 // is silent, the other call is answered: the batch must return with that call marked failed.
 func batchOwnCtx() string {
@@ -2211,6 +2291,7 @@ func init() {
 		jobs = append(jobs, func() string { return scanOpenScenario(false) }, func() string { return scanOpenScenario(true) })
 		jobs = append(jobs, func() string { return busyQueueScenario("cancel") }, func() string { return busyQueueScenario("deadline") })
 		jobs = append(jobs, func() string { return busyQueueScenarioKind("cancel", true) }, func() string { return busyQueueScenarioKind("deadline", true) })
+		jobs = append(jobs, func() string { return batchBusyQueueScenario("cancel") }, func() string { return batchBusyQueueScenario("deadline") })
 		runSharded("C13", tier, seed, out, 8, func(shard, nsh int, emit func(string)) {
 			for i := shard; i < len(jobs); i += nsh {
 				emit(jobs[i]())
@@ -2251,7 +2332,7 @@ func init() {
 				return s.line("c19c")
 			})
 		}
-		jobs = append(jobs, overlappingCloses)
+		jobs = append(jobs, overlappingCloses, c19DialClosed)
 		jobs = append(jobs, func() string { return dialCloseScenario("close") }, func() string { return dialCloseScenario("close-peer-gone") })
 		jobs = append(jobs,
 			func() string { return strings.Replace(slowCloseScenario(), "c03 script", "c19c script", 1) },
